@@ -195,9 +195,9 @@ class NodeType:
         copy: list[Mark] | None = None
         for i, mark in enumerate(marks):
             if not self.allows_mark_type(mark.type):
-                if not copy:
+                if copy is None:
                     copy = marks[0:i]
-            elif copy:
+            elif copy is not None:
                 copy.append(mark)
         if copy is None:
             return marks
